@@ -20,6 +20,8 @@ import PynetVerif.Driver.Outcome
 import PynetVerif.Driver.Trigger
 import PynetVerif.Driver.Scp
 import PynetVerif.Driver.Pdu
+import PynetVerif.Driver.Release
+import PynetVerif.Driver.Timeouts
 open PynetVerif
 
 /-- Each model contributes `String → List SExp → Option SExp` (none = not my op). -/
@@ -44,7 +46,9 @@ def handlers : List (String → List SExp → Option SExp) :=
    Driver.outcomeOps,
    Driver.triggerOps,
    Driver.scpOps,
-   Driver.pduOps]
+   Driver.pduOps,
+   Driver.releaseOps,
+   Driver.timeoutsOps]
 
 def handle (e : SExp) : SExp :=
   match e with
